@@ -293,7 +293,7 @@ func cmdCheck(args []string) int {
 	}
 	var kfFuncs []string
 	for _, k := range cfg.Functions {
-		if fi := prog.Funcs[fullKey(k)]; fi != nil && fi.Spec != nil && len(fi.Spec.KFs) > 0 {
+		if fi := prog.Funcs[fullKey(k)]; fi != nil && fi.Spec != nil && (len(fi.Spec.KFs) > 0 || len(fi.Spec.SiteKFs) > 0) {
 			kfFuncs = append(kfFuncs, k)
 		}
 	}
